@@ -466,4 +466,33 @@ theorem closedTable_vals (enc : ArpaEnc fval a bound P B) : ValsOK (closedTable 
     · exact hB
 
 
+/-- back-off a context contributes to a blank's probability: the real n-gram's back-off, nothing if the context is no n-gram -/
+def msgValue (fval : Nat → Rat) (gs : List Gram) (k : List Word) : Rat :=
+  match realOf gs k with
+  | some r => fval r.backoff
+  | none => 0
+
+/-- **value of a blank** under an exact addition shared by builder and table (`fval (fadd x y) = fval x + fval y`, both zeros
+decode to 0): the probability `SRISucks` computes is the basis plus the back-offs of the asked contexts, in the order of the
+messages — the operand list of the back-off recursion from the basis order up to the blank's order. -/
+theorem blankProb_value (fval : Nat → Rat) (fadd : Nat → Nat → Nat) (hadd : ∀ x y, fval (fadd x y) = fval x + fval y)
+    (hz : fval minusZero = 0 ∧ fval plusZero = 0) (gs : List Gram) (b : Blank) :
+    fval (blankProb fadd gs b) = fval b.basis + ((messageKeys b).map (msgValue fval gs)).sum := by
+  unfold blankProb
+  generalize messageKeys b = keys
+  generalize b.basis = acc
+  induction keys generalizing acc with
+  | nil => simp only [List.foldl_nil, List.map_nil, List.sum_nil]; rw [Rat.add_zero]
+  | cons k ks ih =>
+    rw [List.foldl_cons, ih, List.map_cons, List.sum_cons]
+    unfold msgValue
+    cases hr : realOf gs k with
+    | none => simp only; rw [Rat.zero_add]
+    | some r =>
+      simp only [hadd]
+      by_cases hb : r.backoff = minusZero
+      · rw [if_pos hb, hb, hz.1, hz.2, Rat.add_assoc]
+      · rw [if_neg hb, Rat.add_assoc]
+
+
 end KV.TrieBuild
